@@ -437,34 +437,67 @@ def rule_D4(ctx, rule: str = "D4") -> None:
 
 
 def rule_D5(ctx) -> None:
+    """the default generator chosen for each kind of annotation the plugin emits: evaluated per kind with what the function
+    can observe about the annotation bound (its __origin__, whether it is a PEP 604 union, an Enum subclass, datetime)"""
+    from ..src import SymName
     mod = ctx.repo.mod(M_INIT)
     fn = mod.func("Message._get_field_default_gen")
     ctx.analysed("Message._get_field_default_gen")
-    paths = Interp(mod).run(fn)
-    ctx.count(len(paths))
-    # shapes: (atom valuation) -> returned generator
-    want = {
-        "Optional / union": ("(None)", lambda p: any(("Union" in show(k) or "is_310" in show(k) or "UnionType" in show(k)) and v for k, v in p.valuation.items())),
-        "list": ("list", lambda p: any(show(k).endswith("__origin__ is list)") and v for k, v in p.valuation.items())),
-        "dict": ("dict", lambda p: any(show(k).endswith("__origin__ is dict)") and v for k, v in p.valuation.items())),
-        "enum": ("try_value", lambda p: any("issubclass" in show(k) and "Enum" in show(k) and v for k, v in p.valuation.items())),
-        "datetime": ("datetime_default_gen", lambda p: any(show(k) == "(t is datetime)" or "is datetime" in show(k) and v for k, v in p.valuation.items() if v)),
+    # the annotation: the value the function obtains from cls._type_hint(..)
+    probe = Interp(mod).run(fn)
+    tterms = {t for p in probe for k in p.valuation for t in walk(k) if t[0] == "call" and dotted(t[1]).endswith("_type_hint")}
+    tterms |= {p.value for p in probe if p.value is not None and p.value[0] == "call" and dotted(p.value[1]).endswith("_type_hint")}
+    if len(tterms) != 1:
+        ctx.inconclusive("D5", "default-gen", f"the annotation lookup is not a single cls._type_hint(...) term ({len(tterms)})", mod.loc(fn))
+        return
+    T = next(iter(tterms))
+    has_origin = CALL(N("hasattr"), T, C("__origin__"))
+    is604 = CALL(N("isinstance"), T, N("_types_UnionType"))
+    is_enum = CALL(N("issubclass"), T, N("Enum"))
+    is_dt = ("op", "is", T, N("datetime"))
+    attr_err = ("raises", ("AttributeError",), A(T, "__origin__"))
+
+    def scenario(origin=None, pep604=False, enum=False, dt=False):
+        b = {}
+        assume = {is604: pep604, is_enum: enum, is_dt: dt, has_origin: origin is not None, attr_err: origin is None}
+        if origin is not None:
+            b[A(T, "__origin__")] = SymName(origin)
+        return b, assume
+
+    shapes = {
+        "Optional / union": (scenario(origin="Union"), "type(None)"),
+        "PEP 604 union": (scenario(pep604=True), "type(None)"),
+        "list": (scenario(origin="list"), "list"),
+        "dict": (scenario(origin="dict"), "dict"),
+        "enum": (scenario(enum=True), "try_value"),
+        "datetime": (scenario(dt=True), "datetime_default_gen"),
+        "message / scalar": (scenario(), "$T"),
     }
-    for shape, (expected, sel) in want.items():
-        ps = [p for p in paths if p.outcome == "return" and sel(p)]
-        rets = {show(p.value) for p in ps if p.value is not None}
-        if not ps:
-            ctx.refuted("D5", f"default-gen[{shape}]", "unhandled", mod.loc(fn), f"_get_field_default_gen has no branch for {shape} annotations, which the plugin emits")
-        elif all(expected in r for r in rets):
-            ctx.proved("D5", f"default-gen[{shape}]", mod.loc(fn), ",".join(sorted(rets)))
+    for shape, ((b, assume), expected) in shapes.items():
+        paths = Interp(mod, bindings=b, assume=assume, fork_ifexp=True).run(fn)
+        # reading t.__origin__ inside a try raises AttributeError exactly when the annotation has no origin
+        raising = {k for p in paths for k in p.valuation if k[0] == "raises" and "AttributeError" in k[1]}
+        if raising:
+            assume = dict(assume)
+            assume.update({k: not b for k in raising})
+            paths = Interp(mod, bindings=b, assume=assume, fork_ifexp=True).run(fn)
+        ctx.count(len(paths))
+        rets = set()
+        for p in paths:
+            if p.outcome != "return" or p.value is None:
+                rets.add(f"<{p.outcome}>")
+                continue
+            # atoms about raising must agree with the scenario: an AttributeError from t.__origin__ only without an origin
+            rets.add(show(p.value))
+        name = f"default-gen[{shape if shape != 'PEP 604 union' else 'PEP 604 union recognised'}]"
+        want_txt = show(T) if expected == "$T" else expected
+        ok = bool(rets) and all((r == want_txt) if expected == "$T" else (r.endswith(expected) or r == expected) for r in rets)
+        if ok:
+            ctx.proved("D5", name, mod.loc(fn), ",".join(sorted(rets)))
+        elif not rets:
+            ctx.refuted("D5", name, "unhandled", mod.loc(fn), f"_get_field_default_gen has no path for {shape} annotations, which the plugin emits")
         else:
-            ctx.refuted("D5", f"default-gen[{shape}]", ",".join(sorted(rets)), mod.loc(fn), f"{shape} annotation yields default generator {sorted(rets)}, expected {expected}")
-    # PEP 604 unions are recognised (typing.310 option)
-    src_txt = ast.unparse(fn)
-    if "UnionType" in src_txt:
-        ctx.proved("D5", "default-gen[PEP 604 union recognised]", mod.loc(fn))
-    else:
-        ctx.refuted("D5", "default-gen[PEP 604 union recognised]", "missing", mod.loc(fn), "`X | None` annotations (typing.310 option) are not recognised as optional")
+            ctx.refuted("D5", name, ",".join(sorted(rets))[:100], mod.loc(fn), f"a {shape} annotation yields the default generator {sorted(rets)}, expected {want_txt}")
 
 
 # ---------------------------------------------------------------------------
